@@ -420,10 +420,18 @@ func runWaitersCase(ctx *Ctx, specs [][2]interface{}, script []string) {
 			c.op(fmt.Sprintf("cancel %d", i), "ok")
 			w.cancel()
 			c.settle()
-		case "put", "putx":
-			// putx: with a short expiry
+		case "put", "putx", "putpast":
+			// putx: with a short expiry; putpast: with an expiry that is ALREADY over — the key goes from live to absent
+			// by a write, and its waiters must hear of it like of a Delete
 			rec := kvs.Record{Key: f[1], Value: []byte("v")}
-			if f[0] == "putx" {
+			if f[0] == "putpast" {
+				c.mu.Lock()
+				t := c.base.Add(time.Duration(c.vnow-5) * time.Millisecond)
+				c.mu.Unlock()
+				rec.ExpiresAt = &t
+				delete(c.expiry, f[1])
+				c.lapsed[f[1]] = true
+			} else if f[0] == "putx" {
 				c.mu.Lock()
 				ex := c.vnow + 12
 				c.mu.Unlock()
@@ -444,9 +452,13 @@ func runWaitersCase(ctx *Ctx, specs [][2]interface{}, script []string) {
 				continue
 			}
 			c.versions = append(c.versions, r.Version)
-			c.flush("write " + f[1])
+			if f[0] == "putpast" {
+				c.flush("write " + f[1] + ";expire " + f[1])
+			} else {
+				c.flush("write " + f[1])
+			}
 			c.settle()
-		case "putmany":
+			case "putmany":
 			// several records in one call: every key's waiters must be woken
 			ks := strings.Split(f[1], ",")
 			var recs []kvs.Record
@@ -725,7 +737,7 @@ func runWaiters(ctx *Ctx) {
 			case x < 76:
 				script = append(script, "cas "+k+" "+[]string{"currentx", "samex"}[r.Intn(2)])
 			case x < 78:
-				script = append(script, []string{"get " + k, "getmany", "list"}[r.Intn(3)])
+				script = append(script, []string{"get " + k, "getmany", "list", "putpast " + k}[r.Intn(4)])
 			case x < 83:
 				script = append(script, "cas "+k+" stale")
 			case x < 93:
@@ -796,6 +808,19 @@ func runWaiters(ctx *Ctx) {
 			}
 			script = append(script, "expire a")
 		}
+		if r.Chance(1, 8) {
+			// directed: the key goes from live to absent by a WRITE (a Put whose expiry is already over) while waiters
+			// are parked on it, on a record without / with an expiry of its own
+			specs = [][2]interface{}{{"a", 1}, {"a", 1}}
+			script = []string{[]string{"put a", "putx a"}[r.Intn(2)], "start 0", "start 1", "putpast a"}
+			if r.Chance(1, 2) {
+				script = append(script, "put a")
+			}
+		}
+		if ctx.R.Enough() {
+			ctx.R.Comment("several violations recorded already: the remaining cases are skipped")
+			break
+		}
 		runWaitersCase(ctx, specs, script)
-	}
-}
+		}
+		}
